@@ -92,6 +92,9 @@ class C07(Check):
                 n = rng.randint(2, 12)
                 mode = rng.choice(["flat", "growing"])
                 env = [{"latency": round(lat * ((i + 1) if mode == "growing" else 1), 3)} for i in range(n)]
+                if rng.random() < 0.25:
+                    # the clock steps back (NTP correction) during one check: a negative reading difference
+                    env[rng.randrange(len(env))]["latency"] = -rng.choice([0.5, 2.0, 30.0])
             if "unknown" in kinds:
                 at = rng.choice([0, 1, 1, 2, 3, 5])
                 while len(env) <= at:
